@@ -150,13 +150,15 @@ def run(ctx):
     common.install_matid()
     import gen_tables
     broken = []
-    try:
-        gen_tables.generate()
+    terr = common.regen(ctx, ("tables",))
+    if terr:
+        for t in THEOREMS:
+            ctx.obligations.append((t, False))
+        broken.append(("translator", terr))
+    else:
         ok, info = prove(ctx, "MatidProps.C15", THEOREMS)
         if not ok:
             broken.append(("proof", info))
-    except Exception as e:  # noqa
-        broken.append(("translator", {"error": repr(e)}))
     mism = []
     try:
         mism = correspondence(ctx, ctx.n(1200, 20000))
